@@ -1,8 +1,8 @@
 import LenaModel.Model.Val
 /-! # C07 model — nested-dictionary algebra (`lena/context/functions.py`)
 
-Transcription of `intersection` (lines 335-412), `difference` (63-105, the repaired version),
-`update_recursively` (595-647) and `update_nested` (532-592) on slot vectors (`Model/Val.lean`).
+Transcription of `intersection` (lines 341-418), `difference` (66-108, the repaired version),
+`update_recursively` (601-653) and `update_nested` (538-598) on slot vectors (`Model/Val.lean`).
 
 A `for key in d:` loop whose body reads `d[key]`, `other.get(key)` and writes `result[key]` is
 the pointwise function `…L` of the per-key body `…O`; the body receives `d.get(key)` and
@@ -36,13 +36,13 @@ def asDict : Val α → Option (Slots α)
 
 /-! ## intersection -/
 
-/-- the `if level == 0:` branch inside the loop over `dicts[1:]` (lines 389-393):
+/-- the `if level == 0:` branch inside the loop over `dicts[1:]` (lines 395-399):
 `if d == res and d: continue` (keep `res`) `else: return {}` -/
 def interLevel0 (res d : Slots α) : Slots α :=
   if d = res ∧ nonEmpty d = true then res else emptyLike res
 
 mutual
-/-- body of `for key in res:` (lines 395-406) for one key; first argument `res.get(key)`,
+/-- body of `for key in res:` (lines 401-412) for one key; first argument `res.get(key)`,
 second `d.get(key)`; result: the binding of `key` in `res` after the deletions.
 The recursive call `intersection(res[key], d[key], level=level-1)` is inlined: its own
 `level == 0` test, its loop over the single further dictionary, and its `if not res: return res`
@@ -69,7 +69,7 @@ end
 def inter2 (lv : Int) (res d : Slots α) : Slots α :=
   if lv = 0 then interLevel0 res d else interL lv res d
 
-/-- the loop `for d in dicts[1:]:` (lines 388-412) with its two early returns -/
+/-- the loop `for d in dicts[1:]:` (lines 394-418) with its two early returns -/
 def interFold (lv : Int) : Slots α → List (Slots α) → Slots α
   | res, [] => res
   | res, d :: ds =>
@@ -87,7 +87,7 @@ def interN (n : Nat) (lv : Int) : List (Slots α) → Slots α
   | d0 :: ds => interFold lv d0 ds          -- `res = copy.deepcopy(dicts[0])`
 
 /-- `intersection(*args, level=lv)` for arbitrary values: `LenaTypeError` unless all are
-dictionaries (lines 373-377) -/
+dictionaries (lines 379-383) -/
 def intersection (n : Nat) (lv : Int) (args : List (Val α)) : Out (Slots α) :=
   match args.mapM asDict with
   | none => .lenaTypeError
@@ -103,7 +103,7 @@ def truthyV : Val α → Bool
   | .leaf a => truthy a
 
 mutual
-/-- `difference(d1, d2, level)` (lines 63-105) -/
+/-- `difference(d1, d2, level)` (lines 66-108) -/
 def diffV (lv : Int) : Val α → Val α → Val α
   | .dict x, .dict y =>
     if x = y then .dict (emptyLike x)        -- `if d1 == d2: return {}`
@@ -135,7 +135,7 @@ end diff
 /-! ## update_recursively -/
 
 mutual
-/-- body of `for key, val in other.items():` (lines 638-647); first argument `d.get(key)`,
+/-- body of `for key, val in other.items():` (lines 644-653); first argument `d.get(key)`,
 second `other.get(key)`; result: the binding of `key` in `d` afterwards -/
 def updO : Option (Val α) → Option (Val α) → Option (Val α)
   | d, none => d                                     -- key not in other: untouched
@@ -151,7 +151,7 @@ def updL : Slots α → Slots α → Slots α
 end
 
 /-- `update_recursively(d, other)` for arbitrary values, returning the new value of `d`:
-`LenaTypeError` unless both are dictionaries (lines 634-637).  (A string `other` is converted
+`LenaTypeError` unless both are dictionaries (lines 640-643).  (A string `other` is converted
 by `str_to_dict` first; that belongs to C08.) -/
 def updateRecursively (d other : Val α) : Out (Slots α) :=
   match d, other with
@@ -190,7 +190,7 @@ def nestL (k : Nat) (dk : Val α) : Nat → Slots α → Out (Slots α)
     | .typeError => .typeError
 end
 
-/-- `update_nested(key, d, other)` (lines 587-592) returning the new `d`
+/-- `update_nested(key, d, other)` (lines 593-598) returning the new `d`
 (whose `d[key]` is the modified `other`) -/
 def updateNested (k : Nat) (d other : Slots α) : Out (Slots α) :=
   match getSlot d k with
@@ -254,5 +254,32 @@ def untouchedL : Slots α → List Nat → Bool
     | none => true
     | some (.leaf _) => false
     | some (.dict y) => untouchedL y p
+
+/-! ## specification vocabulary: the items of `d1` not contained in `d2`
+
+Written with containment only (no truth-value test): the binding of a key in "the items of `d1`
+not contained in `d2`" is absent when the item is contained in `d2`; otherwise it is the item
+itself, except that for two dictionaries (when the level allows one more recursion) it is the
+part of `d1[key]` not contained in `d2[key]`. -/
+
+mutual
+def diffSpecO (lv : Int) : Option (Val α) → Option (Val α) → Option (Val α)
+  | none, _ => none
+  | some v, none => some v
+  | some v, some w =>
+    if contO lv (some v) (some w) = true then none
+    else match v, w with
+      | .dict x, .dict y => if lv = 1 then some v else some (.dict (diffSpecL (lv - 1) x y))
+      | _, _ => some v
+def diffSpecL (lv : Int) : Slots α → Slots α → Slots α
+  | [], _ => []
+  | x :: r, [] => diffSpecO lv x none :: diffSpecL lv r []
+  | x :: r, y :: r' => diffSpecO lv x y :: diffSpecL lv r r'
+end
+
+/-- the items of `a` not contained in `b` at `level`; at level 0 (no recursion at all, see
+`contained`) that is nothing when `a == b` and the whole of `a` otherwise -/
+def diffSpec (lv : Int) (a b : Slots α) : Slots α :=
+  if lv = 0 then (if a = b then emptyLike a else a) else diffSpecL lv a b
 
 end Lena.C07
